@@ -459,6 +459,12 @@ class BuiltinsMixin:
 
     def pyop(self, recv, name, args, kw, st, fr):
         obj = recv.obj
+        if isinstance(obj, tuple) and obj and obj[0] == "regex":
+            if name == "match" and len(args) == 1 and \
+                    isinstance(args[0], VStr):
+                from .regex import match_prefix
+                return VBool(match_prefix(obj[1], obj[2], args[0].e))
+            raise Unsupported(f"regex method .{name}")
         if isinstance(obj, dict) and name in ("items", "keys", "values"):
             return VPy(list(getattr(obj, name)()))
         if isinstance(obj, dict) and name == "get":
@@ -503,23 +509,56 @@ class BuiltinsMixin:
             st.assume(z3.Length(r) == n)
             st.assume(f(r) == r)
             return VStr(r)
+        if name == "split" and len(args) == 1 and isinstance(args[0], VStr):
+            return self.str_split(recv, args[0], st)
         if name == "join":
             raise Unsupported("str.join")
         raise Unsupported(f"str.{name}")
 
+    def str_split(self, recv, sep, st):
+        """s.split(sep) for a non-empty separator: a list L with len >= 1,
+        no element contains sep, and the ghost prefix function
+        join_prefix(L, k) = L[0]+sep+...+L[k-1]+sep satisfies
+        join_prefix(L, len(L)) == s + sep."""
+        self.uni.note_assumption(
+            "str.split(sep): assumed contract (elements do not contain sep; "
+            "join_prefix(L,0)='' , join_prefix(L,k+1)=join_prefix(L,k)+L[k]+"
+            "sep, join_prefix(L,len)=s+sep)")
+        lst = self.alloc(st, "list", "str", "split")
+        arr = fresh("split_items", z3.ArraySort(INT, STR))
+        n = fresh("split_len", INT)
+        st.assume(n >= 1)
+        self.set_list(lst, st, arr, n)
+        i = z3.Int(fresh_name("i"))
+        st.assume(z3.ForAll([i], z3.Implies(
+            z3.And(0 <= i, i < n), z3.Not(z3.Contains(arr[i], sep.e))),
+            patterns=[arr[i]]))
+        if sep.e.eq(z3.StringVal("\n")) and "nonl" in self.uni.ufs:
+            nonl = self.uni.ufs["nonl"]
+            st.assume(z3.ForAll([i], z3.Implies(z3.And(0 <= i, i < n),
+                                                nonl(arr[i])),
+                                patterns=[arr[i]]))
+        jp = self.uni.uf("join_prefix", ["ref", "int"], "str")
+        st.assume(jp(lst.e, 0) == z3.StringVal(""))
+        st.assume(z3.ForAll([i], z3.Implies(
+            z3.And(0 <= i, i < n),
+            jp(lst.e, i + 1) == z3.Concat(jp(lst.e, i), arr[i], sep.e)),
+            patterns=[jp(lst.e, i + 1)]))
+        st.assume(jp(lst.e, n) == z3.Concat(recv.e, sep.e))
+        return lst
+
     def str_strip(self, recv, name, st):
-        """lstrip(): result is the suffix starting at the first
-        non-whitespace character."""
+        """lstrip(): the suffix starting at the first non-whitespace
+        character.  The position is a function nws(s) of the string so that
+        repeated evaluations denote the same term."""
         s = recv.e
         n = z3.Length(s)
         ws = z3.Union(*[z3.Re(z3.StringVal(c)) for c in self.WS])
-        res = fresh("stripped", STR)
         if name == "lstrip":
-            k = fresh("nws", INT)
+            k = self.uni.uf("nws", ["str"], "int")(s)
             st.assume(z3.And(0 <= k, k <= n))
             st.assume(z3.InRe(z3.SubString(s, 0, k), z3.Star(ws)))
             st.assume(z3.Or(k == n, z3.Not(z3.InRe(z3.SubString(s, k, 1),
                                                    ws))))
-            st.assume(res == z3.SubString(s, k, n - k))
-            return VStr(res)
+            return VStr(z3.SubString(s, k, n - k))
         raise Unsupported(f"str.{name}()")
